@@ -89,7 +89,7 @@ type Enc struct {
 func newEnc(p *Prog) *Enc {
 	e := &Enc{prog: p, declared: map[string]bool{}, structs: map[string]*types.Struct{}, usedAssumptions: map[string]bool{}, usedTrusted: map[string]bool{}, usedSpecs: map[string]bool{}}
 	e.header = append(e.header,
-		"(declare-datatypes ((Slice 0)) (((mk-slice (sl-arr Int) (sl-off Int) (sl-len Int) (sl-cap Int)))))",
+		"(declare-datatypes ((Slice 0)) (((mk-slice (sl-arr Int) (sl-len Int) (sl-cap Int)))))",
 		"(declare-datatypes ((Iface 0)) (((mk-iface (if-tag Int) (if-data Int)))))",
 	)
 	return e
@@ -199,7 +199,7 @@ func (e *Enc) zeroOfSort(sort string, t types.Type) string {
 	case sF32:
 		return "(_ +zero 8 24)"
 	case sSlice:
-		return "(mk-slice 0 0 0 0)"
+		return "(mk-slice 0 0 0)"
 	case sIface:
 		return "(mk-iface 0 0)"
 	}
